@@ -115,6 +115,21 @@ CONTRACTS['distance_wei_floyd:paths'] = Contract(
              ('argument-untouched', "unchanged('adjacency')")])
 
 
+# the same bookkeeping contract for transform='inv': the lengths are L = 1/w on the support of the weights (ghost L of _setup_inv)
+def _to_L(clauses):
+    return [(a, b.replace('adjacency[', 'L[')) for a, b in clauses]
+
+
+_PB = CONTRACTS['distance_wei_floyd:paths']
+CONTRACTS['distance_wei_floyd:paths:inv'] = Contract(
+    MOD, 'distance_wei_floyd', ['adjacency', 'transform'], setup=_setup_inv, key='distance_wei_floyd:paths:inv', isclose_exact=True, inf_division='ieee',
+    requires=[('weights-nonnegative-and-finite', _N2 % "And(adjacency[v, w] >= 0, adjacency[v, w] < INF)")] + _to_L(_PB.requires),
+    loops={'for k in range(*': {'name': 'pivots', 'inv': _to_L(_PINV)}},
+    ghost_before=dict(_PB.ghost_before),
+    ensures=_to_L(_PB.ensures))
+CONTRACTS['distance_wei_floyd:paths:inv'].concrete_ghosts = _inv_ghosts
+
+
 # ---- rout_efficiency (C03: "rout_efficiency reports exactly the mean inverse of these distances"), global part, transform=None ---------------
 # PREFIX contract (up to the local-efficiency loop): distance_wei_floyd is used through its proved contract; Erout = 1/SPL off the diagonal
 # (1/INF = 0 for unreachable pairs, IEEE), 0 on the diagonal, GErout = total / (n*n - n).  np.isnan is False in the real-number model.
@@ -142,5 +157,5 @@ CONTRACTS['rout_efficiency#global'] = Contract(
 CONTRACTS['rout_efficiency#global'].callees = {'distance_wei_floyd': _cfc('distance_wei_floyd', ['adjacency', 'transform'], list(_FWC.requires), [e for e in _FWC.ensures if e[0] != 'argument-untouched'],
                                                                           [('mat', 'n0', 'n0'), ('mat', 'n0', 'n0'), ('imat', 'n0', 'n0')], ghosts={'n0': 'len(adjacency)'})}
 
-for _k in ('distance_wei_floyd', 'distance_wei_floyd:inv', 'distance_wei_floyd:paths'):
+for _k in ('distance_wei_floyd', 'distance_wei_floyd:inv', 'distance_wei_floyd:paths', 'distance_wei_floyd:paths:inv'):
     CONTRACTS[_k].inputs = [('adjacency', 'G0', 'mat', 'n0c')]       # lets a solver counter-model be replayed on the real function
